@@ -66,18 +66,18 @@ type freeRec struct {
 }
 
 type runState struct {
-	x        starlark.Value
-	th       *starlark.Thread
-	k        uint64
-	steps    int
-	ticks    int
-	cb       int
-	inCb     bool
-	marked   bool
-	inWindow bool
-	attempts []attemptRec
-	frees    []freeRec
-	unlocked int // conditional attempts skipped because no iterator was live
+	x          starlark.Value
+	th         *starlark.Thread
+	k          uint64
+	steps      int
+	ticks      int
+	cb         int
+	inCb       bool
+	marked     bool
+	inWindow   bool
+	attempts   []attemptRec
+	frees      []freeRec
+	unlocked   int // conditional attempts skipped because no iterator was live
 	gotThrough int
 }
 
